@@ -33,7 +33,7 @@ def _setup(ip, env):
     from pytrs.parser.plssdesc import plss_parse
     tw, sc = ARRANGEMENTS[env['arrangement']]
     plss_stubs.install(ip, twprge_matches=tw, sec_matches=sc, finder_flags=([env['fflag']], [(env['fflag'], env['fline'])]),
-                       layout_oracle=env.get('deduced'))
+                       layout_oracle=env.get('deduced'), pp_identity=False, pp_len_min=60)
     models.register_model(plss_parse.cleanup_desc, lambda ip_, a, k, n: plss_stubs.g_str('G_cleanup', a[0]))
 
 
